@@ -380,7 +380,40 @@ class Program:
 
 # ----------------------------------------------------------------- ast helpers
 def names_in(node):
-    return {n.id for n in ast.walk(node) if isinstance(n, ast.Name)}
+    """Free names of an expression/statement: names bound by comprehensions and
+    lambdas inside it are excluded."""
+    if node is None:
+        return set()
+    out = set()
+
+    def rec(n, bound):
+        if isinstance(n, ast.Name):
+            if n.id not in bound:
+                out.add(n.id)
+            return
+        if isinstance(n, (ast.ListComp, ast.SetComp, ast.GeneratorExp, ast.DictComp)):
+            b = set(bound)
+            for g in n.generators:
+                rec(g.iter, b)
+                for t in ast.walk(g.target):
+                    if isinstance(t, ast.Name):
+                        b.add(t.id)
+                for c in g.ifs:
+                    rec(c, b)
+            if isinstance(n, ast.DictComp):
+                rec(n.key, b)
+                rec(n.value, b)
+            else:
+                rec(n.elt, b)
+            return
+        if isinstance(n, ast.Lambda):
+            b = set(bound) | {a.arg for a in n.args.args + n.args.kwonlyargs}
+            rec(n.body, b)
+            return
+        for c in ast.iter_child_nodes(n):
+            rec(c, bound)
+    rec(node, frozenset())
+    return out
 
 
 def calls_in(node):
